@@ -149,9 +149,9 @@ mut('C10', 'setstate-lines-before-nodes', 'circuit.py', "        for s in state[
     "        for driver, driver_pin, reader, reader_pin in state['lines']:\n            Line(self, (self.nodes[driver], driver_pin), (self.nodes[reader], reader_pin))\n        for s in state['nodes']:\n            Node(self, *s)", 'C10.pickle')
 
 # ------------------------------------------------------------------ C07
-mut('C07', 'level-test-drops-operand', 'sim.py', 'if levels[i0_idx] >= current_level or levels[i1_idx] >= current_level or levels[i2_idx] >= current_level or levels[i3_idx] >= current_level:', 'if levels[i0_idx] >= current_level or levels[i1_idx] >= current_level or levels[i2_idx] >= current_level:', 'C07.operands')
-mut('C07', 'level-no-stem', 'sim.py', '            i1_idx = stems[op[3]] if stems[op[3]] >= 0 else op[3]\n            i2_idx = stems[op[4]] if stems[op[4]] >= 0 else op[4]\n            i3_idx = stems[op[5]] if stems[op[5]] >= 0 else op[5]\n            if levels', '            i1_idx = op[3]\n            i2_idx = stems[op[4]] if stems[op[4]] >= 0 else op[4]\n            i3_idx = stems[op[5]] if stems[op[5]] >= 0 else op[5]\n            if levels', 'C07.operands')
-mut('C07', 'level-gt', 'sim.py', 'levels[i3_idx] >= current_level:', 'levels[i3_idx] > current_level:', 'C07.operands')
+mut('C07', 'level-test-drops-operand', 'sim.py', 'if levels[i0_idx] >= current_level or levels[i1_idx] >= current_level or levels[i2_idx] >= current_level or levels[i3_idx] >= current_level:', 'if levels[i0_idx] >= current_level or levels[i1_idx] >= current_level or levels[i2_idx] >= current_level:', ['C07.operands', 'C07.level', 'C07.release', 'C08.pins', 'C08.alloc'])
+mut('C07', 'level-no-stem', 'sim.py', '            i1_idx = stems[op[3]] if stems[op[3]] >= 0 else op[3]\n            i2_idx = stems[op[4]] if stems[op[4]] >= 0 else op[4]\n            i3_idx = stems[op[5]] if stems[op[5]] >= 0 else op[5]\n            if levels', '            i1_idx = op[3]\n            i2_idx = stems[op[4]] if stems[op[4]] >= 0 else op[4]\n            i3_idx = stems[op[5]] if stems[op[5]] >= 0 else op[5]\n            if levels', ['C07.operands', 'C07.level', 'C07.release', 'C08.pins', 'C08.alloc'])
+mut('C07', 'level-gt', 'sim.py', 'levels[i3_idx] >= current_level:', 'levels[i3_idx] > current_level:', ['C07.operands', 'C07.level', 'C07.release', 'C08.pins', 'C08.alloc'])
 mut('C07', 'level-set-in-if', 'sim.py', '                level_starts.append(i)\n            levels[op[1]] = current_level  # set level of the output line', '                level_starts.append(i)\n                levels[op[1]] = current_level  # set level of the output line', 'C07.level')
 mut('C07', 'free-in-op-loop', 'sim.py', '                self.c_locs[o_idx], self.c_caps[o_idx] = h.alloc(cap), cap\n            if c_reuse:\n                for loc in free_set:\n                    h.free(loc)', '                self.c_locs[o_idx], self.c_caps[o_idx] = h.alloc(cap), cap\n                if c_reuse:\n                    for loc in free_set:\n                        h.free(loc)\n                    free_set = set()', 'C07.release')
 mut('C07', 'free-unguarded', 'sim.py', '            if c_reuse:\n                for loc in free_set:\n                    h.free(loc)', '            for loc in free_set:\n                h.free(loc)', 'C07.release')
@@ -160,12 +160,12 @@ mut('C07', 'cpu-range-off', 'wave_sim.py', '    for op_idx in range(op_start, op
 mut('C07', 'gpu-plain-add', 'wave_sim.py', '        cuda.atomic.add(abuf, (a_loc, sim), nrise*a_wr + nfall*a_wf)', '        abuf[a_loc, sim] += nrise*a_wr + nfall*a_wf', 'C07.writes')
 mut('C07', 'level-stops-short', 'sim.py', "self.level_stops = np.asarray(level_starts[1:] + [len(self.ops)], dtype='int32')", "self.level_stops = np.asarray(level_starts[1:] + [len(self.ops) - 1], dtype='int32')", 'C07.level')
 mut('C07', 'decrement-no-stem', 'sim.py', '                i0_idx = stems[op[2]] if stems[op[2]] >= 0 else op[2]\n                i1_idx = stems[op[3]] if stems[op[3]] >= 0 else op[3]\n                i2_idx = stems[op[4]] if stems[op[4]] >= 0 else op[4]\n                i3_idx = stems[op[5]] if stems[op[5]] >= 0 else op[5]\n                ref_count[i0_idx] -= 1',
-    '                i0_idx = op[2]\n                i1_idx = stems[op[3]] if stems[op[3]] >= 0 else op[3]\n                i2_idx = stems[op[4]] if stems[op[4]] >= 0 else op[4]\n                i3_idx = stems[op[5]] if stems[op[5]] >= 0 else op[5]\n                ref_count[i0_idx] -= 1', 'C07.operands')
+    '                i0_idx = op[2]\n                i1_idx = stems[op[3]] if stems[op[3]] >= 0 else op[3]\n                i2_idx = stems[op[4]] if stems[op[4]] >= 0 else op[4]\n                i3_idx = stems[op[5]] if stems[op[5]] >= 0 else op[5]\n                ref_count[i0_idx] -= 1', ['C07.operands', 'C07.level', 'C07.release', 'C08.pins', 'C08.alloc'])
 
 # ------------------------------------------------------------------ C08
 mut('C08', 'ppo-pin-no-stem', 'sim.py', '                i0_idx = stems[n.ins[0]] if stems[n.ins[0]] >= 0 else n.ins[0]\n                ref_count[i0_idx] += 1', '                ref_count[n.ins[0]] += 1', 'C08.pins')
 mut('C08', 'ppo-pin-dropped', 'sim.py', '                i0_idx = stems[n.ins[0]] if stems[n.ins[0]] >= 0 else n.ins[0]\n                ref_count[i0_idx] += 1', '                pass', 'C08.pins')
-mut('C08', 'tmp2-not-pinned', 'sim.py', '        ref_count[self.tmp2_idx] += 1\n', '', 'C08.pins')
+neutral('C08', 'n-tmp2-not-pinned', 'sim.py', '        ref_count[self.tmp2_idx] += 1\n', '')  # equivalent: the scratch slot is never an operand, so its count is never decremented
 mut('C08', 'cap-mismatch', 'sim.py', 'self.c_locs[o_idx], self.c_caps[o_idx] = h.alloc(cap), cap', 'self.c_locs[o_idx], self.c_caps[o_idx] = h.alloc(cap), c_caps[o_idx]', 'C08.alloc')
 mut('C08', 'alias-order', 'sim.py', None, None, 'C08.alias', edits=[
     dict(old="        # copy memory location and capacity from stems to fanout lines\n        for lidx, stem in enumerate(stems):\n            if stem >= 0:  # if at a fanout line\n                self.c_locs[lidx], self.c_caps[lidx] = self.c_locs[stem], self.c_caps[stem]\n", new=""),
@@ -177,7 +177,7 @@ mut('C08', 'heap-tail-trim', 'sim.py', '                    del self.released[-1
 mut('C08', 'heap-max-size', 'sim.py', '        self.max_size = max(self.max_size, self.current_size)\n', '', 'C08.heap-maxsize')
 mut('C08', 'heap-merge-prev', 'sim.py', '                chunksize = size + self.chunks[prev]\n                del self.chunks[loc]\n', '                chunksize = size + self.chunks[prev]\n', 'C08.heap-tiling')
 mut('C08', 'caps-min-dropped', 'wave_sim.py', 'super().__init__(circuit, c_caps=c_caps, c_caps_min=4, a_ctrl=a_ctrl, c_reuse=c_reuse, strip_forks=strip_forks)', 'super().__init__(circuit, c_caps=c_caps, c_caps_min=2, a_ctrl=a_ctrl, c_reuse=c_reuse, strip_forks=strip_forks)', 'C08.alloc')
-mut('C08', 'stem-one-level', 'sim.py', "                while prev_line.driver.kind == '__fork__' and prev_line.driver not in interface_dict:\n                    prev_line = prev_line.driver.ins[0]\n", '', 'C08.alias')
+mut('C08', 'stem-one-level', 'sim.py', "                while prev_line.driver.kind == '__fork__' and prev_line.driver not in interface_dict:\n                    prev_line = prev_line.driver.ins[0]\n", '', ['C08.alias', 'C08.pins', 'C07.level'])
 
 # ------------------------------------------------------------------ C03
 mut('C03', 'arm-a-wrong-bit', 'wave_sim.py', '            a_cur += 1\n            inputs ^= 1\n', '            a_cur += 1\n            inputs ^= 2\n', ['C03.parity', 'C03.siblings'])
